@@ -38,11 +38,15 @@ ShareLetters == TlsShare \cup AvailLetters
 \* line / with 200 and bytes behind it - no request gets through, every shot is a transport failure
 TunnelLetters == {"tunrefused", "tun407", "tungarbage", "tunextra"}
 \* "many1xx": more interim 1xx responses than the client puts up with
+\* HTTP/2 frame level (the http2 guns against a frame-level target): GOAWAY and the connection closed, RST_STREAM instead
+\* of a response, a DATA frame on stream 0, a header block that is not HPACK - no response; "h2rstmid" (below): HEADERS 200
+\* and a part of the body, then RST_STREAM; "h2flood" (below): thousands of SETTINGS and PING frames, then a good response
+H2NetLetters == {"h2goaway", "h2rst", "h2badframe", "h2hpackbad"}
 NetLetters  == {"badstatus", "badheader", "hugeheader", "closebefore", "closeduring", "refused", "timeout", "many1xx"} \cup TlsLetters
-               \cup AvailLetters \cup TunnelLetters
+               \cup AvailLetters \cup TunnelLetters \cup H2NetLetters
 \* chunked bodies with a chunk size that overflows / is negative / whose data is not followed by CRLF / that end inside a
 \* chunk; "gzipbad": Content-Encoding gzip on a body that is no gzip stream, client configured to decompress
-BodyLetters == {"trunc", "badchunk", "chunkhuge", "chunkneg", "chunknocrlf", "chunktrunc", "gzipbad"}
+BodyLetters == {"trunc", "badchunk", "chunkhuge", "chunkneg", "chunknocrlf", "chunktrunc", "gzipbad", "h2rstmid"}
 \* "lst*": a well-formed 200 whose JSON body has, under the key `list` that later steps index, an EMPTY array / an array
 \* of one element / a string / null / an object (every other JSON-bodied letter: an array of two elements)
 ListLetters == {"lst0", "lst1", "lststr", "lstnull", "lstobj"}
@@ -50,7 +54,7 @@ ListLetters == {"lst0", "lst1", "lststr", "lstnull", "lstobj"}
 \* peer hangs up; "gzipraw": the gzipbad bytes with the default client (no decompression: the garbage IS the body);
 \* "manyheaders": a header block of 1.2 MB in 20 000 lines; "dribble": a well-formed response in one-byte writes
 OddLetters  == {"early", "empty", "big", "notjson", "jsonarr", "nothtml", "shorthdr", "nohdr", "cont100", "upgrade", "gzipraw",
-                "manyheaders", "dribble"} \cup ListLetters
+                "manyheaders", "dribble", "h2flood"} \cup ListLetters
 \* "hv": a well-formed 200 whose X-Tok header value has exactly `code` bytes (0 = empty / absent)
 ValueLens   == {0, 1, 2, 3, 5, 12}
 HvLetter(n) == [l |-> "hv", code |-> n]
@@ -66,7 +70,7 @@ Code(x)       == IF x.l = "status" THEN x.code ELSE IF x.l = "upgrade" THEN 101 
 \* array, "scalar" something that cannot be indexed (a string, null, an object)
 ListKind(x)   == CASE x.l = "lst0" -> "empty" [] x.l \in {"lststr", "lstnull", "lstobj"} -> "scalar" [] OTHER -> "n"
 BodyJSON(x)   == CASE x.l = "status" -> ~NoBody(x.code)
-                   [] x.l \in {"early", "big", "shorthdr", "nohdr", "hv", "cont100", "manyheaders", "dribble"} \cup ListLetters -> TRUE
+                   [] x.l \in {"early", "big", "shorthdr", "nohdr", "hv", "cont100", "manyheaders", "dribble", "h2flood"} \cup ListLetters -> TRUE
                    [] OTHER -> FALSE
 BodyHasTok(x) == BodyJSON(x) \/ x.l \in {"notjson", "jsonarr"}          \* the byte string "tok" occurs in the body
 HdrTok(x)     == CASE x.l \in {"shorthdr", "hv"} -> "short" [] x.l = "nohdr" -> "absent" [] OTHER -> "long"
